@@ -6,4 +6,6 @@ INVARIANT SenderInv
 INVARIANT NoLoss
 INVARIANT EndOnlyAtTerminator
 INVARIANT EndToEnd
+INVARIANT ExpInv
+INVARIANT RefInvSync
 CHECK_DEADLOCK FALSE
